@@ -68,6 +68,10 @@ def run_program(sc, hooks=(), tr=None, on_build=None, stop_after=None):
         if on_build:
             on_build(itp)
         client = I.SimClient(itp, ctx)
+        if sc.get("frozen_clock"):
+            # reference twin of C11: the interpreter sees a clock that never advances, so nothing is ever old enough to be
+            # discarded by the state clean-up (the event schedule itself still runs on the client's own time)
+            ctx.set_clock(lambda: 0.0)
         res.client = client
         act_ord = {"n": 0}
         known_actions = {}
